@@ -197,12 +197,53 @@ def write_restart(path, spec, restart, rspec):
             g = f.create_group('Parameters and Global Attributes')
             g.attrs['nioprocs'] = np.int32(1)
     for it in rspec.get('checkpoints', []):
+        if spec.get('checkpoint_data'):
+            write_checkpoint(path, spec, restart, rspec, it)
+            continue
         nck = rspec.get('checkpoint_files', 1)
         for c in range(nck):
             name = (f"checkpoint.chkpt.it_{it}.h5" if nck == 1 else
                     f"checkpoint.chkpt.it_{it}.file_{c}.h5")
             with h5py.File(os.path.join(path, name), 'w') as f:
                 f.create_group('Parameters and Global Attributes')
+
+
+def write_checkpoint(path, spec, restart, rspec, it):
+    """A checkpoint holding every variable at every level, time levels 0
+    and 1 (tl=1 carries other data), one file or one file per process."""
+    ghost = spec['ghost']
+    files = {}
+    for var in rspec.get('variables', spec['variables']):
+        thorn, _ = VARTABLE[var]
+        for rl in rspec['its']:
+            shape = spec['shapes'][rl]
+            boxes = rspec['boxes'][rl]
+            nchunks = len(boxes)
+            for tl in (0, 1):
+                G = global_array(var, it if tl == 0 else it + 1, rl,
+                                 restart, shape, ghost)
+                for c, box in enumerate(boxes):
+                    (x0, x1), (y0, y1), (z0, z1) = box
+                    sub = G[x0:x1 + 2 * ghost, y0:y1 + 2 * ghost,
+                            z0:z1 + 2 * ghost]
+                    per_proc = spec['proc'] and nchunks > 1
+                    fn = (f"checkpoint.chkpt.it_{it}.file_{c}.h5"
+                          if per_proc else f"checkpoint.chkpt.it_{it}.h5")
+                    key = f"{thorn}::{var} it={it} tl={tl} rl={rl}"
+                    if nchunks > 1:
+                        key += f" c={c}"
+                    files.setdefault(fn, []).append(
+                        (key, np.ascontiguousarray(sub.transpose(2, 1, 0)),
+                         (x0, y0, z0), time_of(it)))
+    for fn, dsets in files.items():
+        with h5py.File(os.path.join(path, fn), 'w') as f:
+            for key, data, iorigin, tm in dsets:
+                d = f.create_dataset(key, data=data)
+                d.attrs['cctk_nghostzones'] = np.array([ghost] * 3,
+                                                       dtype=np.int32)
+                d.attrs['iorigin'] = np.array(iorigin, dtype=np.int32)
+                d.attrs['time'] = np.float64(tm)
+            f.create_group('Parameters and Global Attributes')
 
 
 PAR_TEMPLATE = """# generated
